@@ -4,6 +4,10 @@ use crate::refmodel as rm;
 pub struct Family {
     pub name: String,
     pub n: u64,
+    /// how root objects are produced: 0 constructors, 1 from_str, 2 = alternate by root index parity
+    pub how: u8,
+    /// for setup families: root idx -> 32 placement letters
+    pub setups: Option<Vec<String>>,
     pub decode: Box<dyn Fn(u64) -> Option<(rm::Board, bool)> + Sync + Send>,
 }
 
@@ -26,6 +30,8 @@ pub fn f1() -> Family {
     Family {
         name: "F1 (every board with exactly 1 piece: 64 squares x 12 kinds x 2 sides)".into(),
         n: 64 * 12 * 2,
+        how: 0,
+        setups: None,
         decode: Box::new(|idx| {
             let side = idx % 2 == 0;
             let kind = ((idx / 2) % 12) as usize;
@@ -52,6 +58,8 @@ pub fn f2() -> Family {
     Family {
         name: "F2 (every board with exactly 2 pieces: C(64,2) square pairs x 12^2 kinds x 2 sides)".into(),
         n,
+        how: 0,
+        setups: None,
         decode: Box::new(move |idx| {
             let side = idx % 2 == 0;
             let k2 = ((idx / 2) % 12) as usize;
@@ -109,6 +117,8 @@ pub fn f3w(anchors: Option<&[(usize, usize)]>, kinds: &'static [usize], label: &
     Family {
         name: format!("F3W (3 pieces inside a 3x3 window; {}; {} square triples x {}^3 kinds x 2 sides)", label, triples.len(), nk),
         n,
+        how: 0,
+        setups: None,
         decode: Box::new(move |idx| {
             let side = idx % 2 == 0;
             let mut x = idx / 2;
@@ -149,6 +159,8 @@ pub fn f3r(kinds: &'static [usize], label: &str) -> Family {
     Family {
         name: format!("F3R (3 pieces on any squares; kinds {}; {} triples x {}^3 x 2 sides)", label, ntr, nk),
         n,
+        how: 0,
+        setups: None,
         decode: Box::new(move |idx| {
             let side = idx % 2 == 0;
             let mut x = idx / 2;
@@ -181,6 +193,8 @@ pub fn fd(w: usize, h: usize, anchors: Vec<(usize, usize)>, min_pieces: usize, l
     Family {
         name: format!("FD (every filling of a {}x{} window with {{empty,R,C,E,r,c,e}}, >= {} pieces; {}; {} anchors x 7^{} x 2 sides)", w, h, min_pieces, label, anchors.len(), cells),
         n,
+        how: 0,
+        setups: None,
         decode: Box::new(move |idx| {
             let side = idx % 2 == 0;
             let mut x = idx / 2;
@@ -328,8 +342,10 @@ pub fn fs(dir: &std::path::Path) -> Family {
     }
     let n = boards.len() as u64 * 8;
     Family {
-        name: format!("FS ({} curated full-board seeds x (as written, mirrored, colour-swapped, both) x 2 sides)", boards.len()),
+        name: format!("FS ({} curated full-board seeds x (as written, mirrored, colour-swapped, both) x 2 sides; odd roots parsed with from_str)", boards.len()),
         n,
+        how: 2,
+        setups: None,
         decode: Box::new(move |idx| {
             let side = idx % 2 == 0;
             let variant = (idx / 2) % 4;
@@ -343,4 +359,100 @@ pub fn fs(dir: &std::path::Path) -> Family {
             Some((b, side))
         }),
     }
+}
+
+/// Board reached by a placement order, computed with the harness's own square sequence.
+pub fn board_of_setup(order: &str) -> rm::Board {
+    let mut b = [rm::EMPTY; 64];
+    for (i, c) in order.chars().enumerate() {
+        let gold = i < 16;
+        let k = i % 16;
+        let sq = crate::e3::placement_square(gold, k);
+        let st = match c {
+            'r' => 0,
+            'c' => 1,
+            'd' => 2,
+            'h' => 3,
+            'm' => 4,
+            _ => 5,
+        };
+        b[sq] = rm::cell(gold, st);
+    }
+    b
+}
+
+/// FSETUP: play-phase roots produced by the engine's own setup phase (32 real placements), Gold to move, move 2.
+pub fn fsetup(n_gold: usize, n_silver: usize) -> Family {
+    let g = crate::e3::gold_setups(n_gold);
+    let sv = crate::e3::gold_setups(n_silver + 3);
+    let mut orders = vec![];
+    for a in g.iter() {
+        for b in sv.iter().rev().take(n_silver) {
+            orders.push(format!("{}{}", a, b));
+        }
+    }
+    let n = orders.len() as u64;
+    let o2 = orders.clone();
+    Family {
+        name: format!("FSETUP ({} complete set-ups played through the engine's placement phase: {} Gold orders x {} Silver orders; root = the state after the 32nd placement)", n, n_gold, n_silver),
+        n,
+        how: 0,
+        setups: Some(orders),
+        decode: Box::new(move |idx| Some((board_of_setup(&o2[idx as usize]), true))),
+    }
+}
+
+/// The first `k` seeds of FS as written, Gold to move only (for the two-turn exploration FS2).
+pub fn fs_first(dir: &std::path::Path, k: usize) -> Family {
+    let full = fs(dir);
+    let n = (k as u64).min(full.n / 8);
+    Family {
+        name: format!("the first {} opening seeds as written, Gold to move", n),
+        n,
+        how: 0,
+        setups: None,
+        decode: Box::new(move |idx| (full.decode)(idx * 8)),
+    }
+}
+
+/// FP: every filling of the 5-square plus (centre + 4 neighbours) around each of `centres` (interior squares) with
+/// {empty,R,C,E,r,c,e}, at least `min_pieces` pieces: dense neighbourhoods (a piece with up to four neighbours:
+/// several supporters and freezers at once, pusher + victim + freezer + supporter, capture chains at traps).
+pub fn fplus(centres: Vec<usize>, min_pieces: usize, label: &str) -> Family {
+    let per = 7u64.pow(5);
+    let n = per * centres.len() as u64 * 2;
+    let alphabet: [rm::Cell; 7] = [rm::EMPTY, rm::cell(true, 0), rm::cell(true, 1), rm::cell(true, 5), rm::cell(false, 0), rm::cell(false, 1), rm::cell(false, 5)];
+    Family {
+        name: format!("FP (every filling of the plus - centre + 4 neighbours - around {} with {{empty,R,C,E,r,c,e}}, >= {} pieces; {} centres x 7^5 x 2 sides)", label, min_pieces, centres.len()),
+        n,
+        how: 0,
+        setups: None,
+        decode: Box::new(move |idx| {
+            let side = idx % 2 == 0;
+            let mut x = idx / 2;
+            let mut fill = x % per;
+            x /= per;
+            let t = centres[x as usize];
+            let cells = [t, t - 8, t + 1, t + 8, t - 1];
+            let mut b = [rm::EMPTY; 64];
+            let mut cnt = 0;
+            for &c in cells.iter() {
+                let v = alphabet[(fill % 7) as usize];
+                fill /= 7;
+                if v != rm::EMPTY {
+                    cnt += 1;
+                    b[c] = v;
+                }
+            }
+            if cnt >= min_pieces && legal(&b) {
+                Some((b, side))
+            } else {
+                None
+            }
+        }),
+    }
+}
+
+pub fn interior_squares() -> Vec<usize> {
+    (0..64).filter(|i| i % 8 > 0 && i % 8 < 7 && i / 8 > 0 && i / 8 < 7).collect()
 }
